@@ -76,6 +76,12 @@ CLAIMED = {
    note="Trusted: as C01/C02. MATLAB is not executed (covered by C14 only). Known finding: Python cannot represent some(none) of nested optionals. Unions with >= 128 cases (index encoding differs) are not exercised.",
    technique="Lean 4 proof (writer refinement) + all-pairs differential correspondence",
    design="§7 C03"),
+ "C14": dict(
+   engine="plan",
+   text="Kernel-checked: encoder and decoder are functions of the serialization plan (the type with all names erased), so equal plans mean identical layout; the serializer expression printed by each back end's recursive type->serializer mapping (Python binary, MATLAB binary, Python NDJSON), read under the runtime constructor conventions (MATLAB's reversed fixed-array shapes included), denotes exactly the plan, for every type; what one back end writes every other reads back; denote is injective up to layout-irrelevant annotations, so an expression difference is always a plan difference. Tied to the code by parsing the serializer expressions out of freshly generated Python binary.py / ndjson.py (ast) and MATLAB +binary/*.m for random and directed packages, expanding record serializer classes, and comparing writer and reader side of every protocol step (hence every record field), stream flags, step order, record field order and NDJSON union type lists with Plan.emit of the resolved type; C++ and Python are also run on Lean-encoded streams of the same types. A deviation is reported with a value whose bytes under the plan and under the generated expression differ.",
+   note="Trusted: Lean kernel; planparse.py (an expression it cannot parse is reported, never skipped); the constructor conventions of the MATLAB runtime classes (static .m files are not executed: no MATLAB/Octave in the sandbox); C++ is tied by execution only (its template expressions are not parsed).",
+   technique="Lean 4 proof (mutual structural induction) + translation validation of generated serializer expressions against the Lean emitter",
+   design="§7 C14"),
 }
 NOT_YET = "machinery for this property is not built yet in this round (see DESIGN.md §10 build order)"
 checks, na = [], []
